@@ -217,6 +217,11 @@ static int wrap_case(void)
 		start = vrng_range(0, len);
 		end = vrng_range(start, len);
 	}
+	/* libxmp_load_sample drops the loop flag unless lps < lpe, so a patched loop has end >= 1
+	 * (with end == 0 the bidirectional unrolling of a 16-bit stereo sample would READ in front of
+	 * the 4 guard bytes; writes stay inside in any case) */
+	if (end < 1)
+		end = 1;
 	nearest = vrng_chance(10);
 	sptr_null = vrng_chance(5);
 	loop = !vrng_chance(10);
